@@ -10,11 +10,13 @@ PROPS["C36"] = {
     "level_note": "trusted: Verus+Z3; hash_pair deterministic (external_body); count<usize::MAX; HashIndex not covered",
     "technique": "Verus contracts (requires/ensures/loop invariants) on functions extracted from /repo each run, erasure-checked",
     "aux_failure": "violation",
-    "functions_under_contract": ["src/bloom_filter.rs: BloomFilter::{with_params, insert, might_contain, get_bit_index, len, is_empty, num_bits, num_hashes}",
+    "functions_under_contract": ["src/bloom_filter.rs: BloomFilter::{with_params, clear, insert, might_contain, get_bit_index}",
                                  "src/bloom_filter.rs: BloomFilter::hash_pair (assumed contract: deterministic function of its argument)"],
     "assumptions": [
         "BloomFilter::hash_pair is a deterministic function of its argument (external_body; DefaultHasher is outside Verus)",
         "insert: count < usize::MAX (otherwise `self.count += 1` overflows) — stated as requires",
+        "with_params: num_bits <= usize::MAX - 63 (otherwise `num_words * 64` overflows; such a filter cannot be allocated anyway); BloomFilter::new (f64 arithmetic) is not under contract — filters built by `new` are assumed well formed",
+        "std: usize::div_ceil(a,b) == ceil(a/b); slice::fill keeps the length (assume_specification)",
         "HashIndex (HashMap entry API, iterator position) is outside both verifiers: that clause of C36 is not decided",
         "Verus, Z3, rustc are trusted",
     ],
